@@ -161,6 +161,7 @@ func (e *Exec) catchUp() {
 	if !e.collOpen || e.opts.Backing == "mem" {
 		return
 	}
+	e.processDurable()
 	simrt.Fair(true)
 	defer simrt.Fair(false)
 	const bound = 150000
@@ -185,8 +186,8 @@ func (e *Exec) catchUp() {
 				d = e.hist.Last().Diff(content, "")
 			}
 			e.failD("no-catch-up", map[string]string{"symptom": "no-catch-up", "diff": d},
-				"operations succeed again, yet after %d fair scheduling points the lower level still lacks executed batches (prefix %d of %d): %s; errors seen: %v",
-				simrt.Steps()-start, j, e.hist.N(), d, lastN(e.events.errors, 3))
+				"operations succeed again, yet after %d fair scheduling points the lower level still lacks executed batches (prefix %d of %d): %s; errors seen: %v; %s",
+				simrt.Steps()-start, j, e.hist.N(), d, lastN(e.events.errors, 3), e.gaugeText())
 		}
 		e.coll.(interface {
 			NotifyMerger(string, bool) error
@@ -214,7 +215,9 @@ func lastN(a []string, n int) []string {
 }
 
 // checkDurableNow: a round just reported success; the directory as it is now
-// (all operations so far applied) must reopen to a prefix >= j.
+// (all operations so far applied) must reopen to a prefix >= j.  Called in the
+// persister's task: only the directory is captured here, the verdict is
+// computed by the driver at its next turn (no oracle work inside moss's tasks).
 func (e *Exec) checkDurableNow(j int) {
 	img := newDisk()
 	for _, n := range e.fs.Listing() {
@@ -223,15 +226,31 @@ func (e *Exec) checkDurableNow(j int) {
 			img.files[n] = b
 		}
 	}
-	dir := fmt.Sprintf("%s-dur%d", e.fs.Dir, e.events.persistRounds)
-	if err := img.materialise(dir); err != nil {
-		return
-	}
-	defer os.RemoveAll(dir)
-	e.out.Images++
-	if v := e.imageVerdict(dir, j, false); v != "" {
-		e.failD("success-not-durable", map[string]string{"symptom": vclass(v)},
-			"persistence round %d reported success with prefix %d, but the directory as written so far does not reopen to it: %s", e.events.persistRounds, j, v)
+	e.pendingDurable = append(e.pendingDurable, durableCheck{img: img, j: j, round: e.events.persistRounds})
+}
+
+type durableCheck struct {
+	img   *diskState
+	j     int
+	round int
+}
+
+// processDurable judges the directory images captured after successful rounds.
+func (e *Exec) processDurable() {
+	for len(e.pendingDurable) > 0 {
+		dc := e.pendingDurable[0]
+		e.pendingDurable = e.pendingDurable[1:]
+		dir := fmt.Sprintf("%s-dur%d", e.fs.Dir, dc.round)
+		if err := dc.img.materialise(dir); err != nil {
+			continue
+		}
+		e.out.Images++
+		v := e.imageVerdict(dir, dc.j, false)
+		os.RemoveAll(dir)
+		if v != "" {
+			e.failD("success-not-durable", map[string]string{"symptom": vclass(v)},
+				"persistence round %d reported success with prefix %d, but the directory as written at that moment does not reopen to it: %s", dc.round, dc.j, v)
+		}
 	}
 }
 
@@ -513,4 +532,16 @@ func (e *Exec) readOnlyOps(op Op) {
 		fail("ro-mutating-op", "%d mutating file operations were issued: %v", rofs.mutating, lastN(muts, 4))
 	}
 	e.probe("bg-step-between-ops")
+}
+
+func (e *Exec) gaugeText() string {
+	if !e.collOpen {
+		return ""
+	}
+	st, err := e.coll.Stats()
+	if err != nil || st == nil {
+		return ""
+	}
+	return fmt.Sprintf("gauges ops=%d bytes=%d segs=%d (top %d mid %d base %d) othersEligible=%v", st.CurDirtyOps, st.CurDirtyBytes, st.CurDirtySegments,
+		st.CurDirtyTopSegments, st.CurDirtyMidSegments, st.CurDirtyBaseSegments, simrt.OthersEligible())
 }
